@@ -35,6 +35,27 @@ inductive LoopOut
   | panic (why : Bytes)
 deriving Repr
 
+/-- `replicate_message_to_secoundary` / `replicate_message_to_all`: register the pending
+acknowledgement and queue the line for every target that has a live connection -/
+def Node.fanOut (n : Node) (opId : Nat) (reqStr : Bytes) (targets : List (Bytes × Member)) : Node × List Ev :=
+  targets.foldl (fun (acc : Node × List Ev) (t : Bytes × Member) =>
+    let (nn, wire) := acc.1.registerPending opId reqStr t.1
+    (nn, acc.2 ++ (if t.2.connected then [Ev.toMember t.2.name wire] else []))) (n, [])
+
+/-- the sending half of the loop: nothing on a secondary; every other secondary on a primary;
+every other member while starting up. `ok = false`: the oplog write failed (the loop panics). -/
+def Node.replSend (n : Node) (ok : Bool) (opId : Nat) (reqStr : Bytes) : Node × LoopOut :=
+  match n.role with
+  | .secoundary => (n, .ok [])
+  | .primary =>
+    if !ok then (n, .panic b!"Error trying to replicating message") else
+    let (n', evs) := n.fanOut opId reqStr (n.members.filter fun (name, mem) => mem.role = .secoundary && name != n.addr)
+    (n', .ok evs)
+  | .startingUp =>
+    if !ok then (n, .panic b!"Error trying to replicating message") else
+    let (n', evs) := n.fanOut opId reqStr (n.members.filter fun (name, _) => name != n.addr)
+    (n', .ok evs)
+
 /-- one message of the replication channel (`rp <op id> <request>`) -/
 def Node.replStep (n : Node) (m : Meta) (line : Bytes) : Node × Meta × LoopOut :=
   match Request.parse line with
@@ -74,23 +95,10 @@ def Node.replStep (n : Node) (m : Meta) (line : Bytes) : Node × Meta × LoopOut
           | none => (some m1, false)
         | _ => (none, true)
       let m' := wr.1.getD m
-      match n.role with
-      | .secoundary => (n, m', .ok [])
-      | .primary =>
-        if !wr.2 then (n, m', .panic b!"Error trying to replicating message") else
-        -- replicate_message_to_secoundary: every Secondary member except self
-        let targets := n.members.filter fun (name, mem) => mem.role = .secoundary && name != n.addr
-        let (n', evs) := targets.foldl (fun (acc : Node × List Ev) (t : Bytes × Member) =>
-          let (nn, wire) := acc.1.registerPending opId reqStr t.1
-          (nn, acc.2 ++ (if t.2.connected then [Ev.toMember t.2.name wire] else []))) (n, [])
-        (n', m', .ok evs)
-      | .startingUp =>
-        if !wr.2 then (n, m', .panic b!"Error trying to replicating message") else
-        let targets := n.members.filter fun (name, _) => name != n.addr
-        let (n', evs) := targets.foldl (fun (acc : Node × List Ev) (t : Bytes × Member) =>
-          let (nn, wire) := acc.1.registerPending opId reqStr t.1
-          (nn, acc.2 ++ (if t.2.connected then [Ev.toMember t.2.name wire] else []))) (n, [])
-        (n', m', .ok evs)
+      -- the id the copies travel under: the snapshot branch folds its writes from `Ok(0)` and keeps that 0
+      let opId := match req with | .replicateSnapshot _ _ => 0 | _ => opId
+      match n.replSend wr.2 opId reqStr with
+      | (n', out) => (n', m', out)
   | _ => (n, m, .panic b!"Unknown message")
 
 /-- `snapshot_keys`: rewrite the key map and set the flag when the log is marked invalid -/
